@@ -1,1 +1,2 @@
+pub mod recv;
 pub mod sender;
